@@ -1,7 +1,7 @@
 """C05 — pack, unpack and token strings are mutually inverse and compositional."""
 from vlib import *
 from props.common import *
-import struct, sys, math, copy
+import struct, sys, math, copy, random
 
 ID = 'C05'
 COQ_PROPS = ['Props/C05.v']
@@ -11,6 +11,9 @@ RULE = ('formats drawn from the grammar fmt ::= token | fmt, fmt | n*(fmt) | n*t
         'independently computed per-token encodings, unpack / readlist / peeklist on the four classes, token strings (flat and bracketed) on the four classes, '
         'splits of a format in two, n*(f), wrong arity; formats that contain the same sub-format text several times (same body under different factors, digit-suffix factors, nested, bare, '
         'token-level prefixes / suffixes); value spellings (sign, zero padding, whitespace, prefixes, letter case, float notations); the parser functions compared with a reference flattening; '
+        'integer tokens of every kind, width and length spelling, struct codes with the four prefixes and counts, alone / under a factor / between other tokens, given values at and beyond the ends of their range '
+        '(by one, by less than a factor of two, by multiples of 2**n, by far) through every value route: the bits, or CreationError and never a wrapped value; '
+        'formats given as lists / tuples of items (strings of one or more tokens, ints, Dtype objects) to unpack / readlist / peeklist / pack, the one length-less token of a record in any item: the same as the comma-joined string; '
         'a malformed stream must raise ValueError and terminate. non-trivial = format with a factor, bracket, struct code or value in the text; distinct by (format, values)')
 ASSUMPTIONS = ['the string front end (tokenparser/preprocess_tokens/expand_brackets/structparser) is tied by the grammar oracle and correspondence of parser outputs, not proved',
                'msb0 (the lsb0 token order is C12)']
@@ -154,7 +157,7 @@ def flatten(f):
         for ch in f['codes']:
             if ch.isdigit(): num += ch; continue
             kind, sz = STRUCT[ch]
-            end = {'<': 'le', '>': 'be', '=': 'ne'}[f['pre']] if sz > 1 else ''
+            end = {'<': 'le', '>': 'be', '=': 'ne', '@': 'ne'}[f['pre']] if sz > 1 else ''
             out += [(kind + end, 8 * sz)] * (int(num) if num else 1); num = ''
         return out
     if t == 'seq': return [x for it in f['items'] for x in flatten(it)]
@@ -303,12 +306,222 @@ def mk_case(rng, f, ctx=None, **extra):
     c = {'op': 'pack', 'fmt': full, 'plain': plain, 'kw': ctx['kw'], 'lkw': {k: ctx['kw'][k] for k in ctx['lk']}, 'toks': toks, 'vals': vals, 'bits': bits, 'back': back,
          'args': args, 'etext': etext, 'zero_bracket': has_zero_bracket(f), 'arity': rng.choice([0, 0, 0, -1, 1]),
          'ucls': rng.choice(CLASSES), 'umeth': rng.choice(['unpack', 'unpack', 'readlist', 'peeklist'])}
+    # the top-level items of the format, each with its own text (used for the same format given as a LIST of items) and, for an item that is one plain token,
+    # the equivalent non-text item of a list format: an int for 'bits:n', a Dtype for the others
+    c['parts'] = [[x[0], part_alt(it)] for it, x in zip(items, parts)]
     if len(parts) >= 2:
         # the format is 'f1, f2': the bits are those of f1 followed by those of f2
         k = rng.randrange(1, len(parts))
         c['split'] = {'f1': join(1, 0, k), 'f2': join(1, k, None), 'a1': sum(npos[:k]), 't1': sum(len(x[2]) for x in parts[:k])}
     c.update(extra)
     return c
+
+def part_alt(f):
+    if f['t'] == 'fixed':
+        if f['name'] == 'bits': return ['int', f['n']]
+        return ['dtype', f['name'], None if f['name'] == 'bool' else f['n']]
+    if f['t'] in ('var', 'stretch'): return ['dtype', f['name'], None]
+    return None
+
+# ---------- a format given as a list of items ----------
+def partition(rng, units, p_cut=0.5, p_alt=0.5):
+    """units: [[text, alt], ...] -> the items of a list format: consecutive units grouped (a group is one string, its tokens joined by commas); a group of one
+    plain token may instead be the int / Dtype that means the same"""
+    out, i = [], 0
+    while i < len(units):
+        j = i + 1
+        while j < len(units) and rng.random() >= p_cut: j += 1
+        if j == i + 1 and units[i][1] is not None and rng.random() < p_alt: out.append(list(units[i][1]))
+        else: out.append(['str', rng.choice([', ', ',', ' , ']).join(u[0] for u in units[i:j])])
+        i = j
+    return out
+
+def all_groupings(n):
+    """every way to cut n consecutive units into consecutive groups, as lists of (first, past-the-last) index pairs"""
+    for mask in range(1 << max(n - 1, 0)):
+        out, i = [], 0
+        for j in range(1, n + 1):
+            if j == n or mask >> (j - 1) & 1: out.append((i, j)); i = j
+        yield out
+
+def grouped(rng, units, groups, p_alt):
+    return [list(units[i][1]) if j == i + 1 and units[i][1] is not None and rng.random() < p_alt else ['str', ', '.join(u[0] for u in units[i:j])] for i, j in groups]
+
+def list_format(items, as_tuple=False):
+    """the python object for a list format recorded as [['str', text] | ['int', n] | ['dtype', name, length], ...]"""
+    from bitstring import Dtype
+    out = [it[1] if it[0] in ('str', 'int') else (Dtype(it[1]) if it[2] is None else Dtype(it[1], it[2])) for it in items]
+    return tuple(out) if as_tuple else out
+
+def show_list(items):
+    return '[' + ', '.join(repr(it[1]) if it[0] in ('str', 'int') else (f"Dtype({it[1]!r})" if it[2] is None else f"Dtype({it[1]!r}, {it[2]})") for it in items) + ']'
+
+STRETCH_KINDS = ('bits', 'bin', 'hex', 'oct', 'bytes', 'uint', 'int', 'pad', 'float')
+def stretch_value(rng, K):
+    """content for a token without a length -> (value to pack or None when pack has no such token, bits, what reading returns); the reading side is worked out
+    from the bits alone (digits in base 16 / 8 / 2, two's complement, IEEE by struct)"""
+    unit = {'hex': 4, 'oct': 3, 'bytes': 8}.get(K, 1)
+    k = rng.choice([0, 1, 1, 2, 3, 4, 5, 7, 8, 9, 15, 16, 17, 31, 32, 33, 64, 65, 100])
+    if K in ('uint', 'int'): k = max(k, 1)
+    if K == 'float': k = rng.choice([16, 32, 64])
+    b = ''.join(rng.choice('01') for _ in range(k * unit)) if rng.random() < 0.8 else rng.choice('01') * (k * unit)
+    if K == 'float':
+        code = {16: 'e', 32: 'f', 64: 'd'}[k]
+        by = int(b, 2).to_bytes(k // 8, 'big'); v = struct.unpack('>' + code, by)[0]
+        return None, b, ['f', v.hex()]
+    if K == 'bits': return ('0b' + b if b else ''), b, ['bits', b]
+    if K == 'bin': return b, b, b
+    if K == 'hex': h = ''.join(format(int(b[i:i + 4], 2), 'x') for i in range(0, len(b), 4)); return h, b, h
+    if K == 'oct': o = ''.join(str(int(b[i:i + 3], 2)) for i in range(0, len(b), 3)); return o, b, o
+    if K == 'bytes': by = [int(b[i:i + 8], 2) for i in range(0, len(b), 8)]; return by, b, ['b', by]
+    if K == 'uint': return None, b, int(b, 2)
+    if K == 'int': return None, b, int(b, 2) - ((1 << len(b)) if b[0] == '1' else 0)
+    if K == 'pad': return None, b, None
+
+def gen_listread(rng, tier):
+    """A record with ONE token that has no length, anywhere in it: any tokens in front (self-delimiting codes included), only tokens of known length behind (plain,
+    struct codes, factors, pads), read back with the format given as a list in which the length-less token's item is not the last one - items that are strings of one
+    or several tokens, ints or Dtype objects - and packed through the same lists."""
+    q = tier == 'quick'
+    def fixed_unit():
+        r = rng.random()
+        if r < 0.15:
+            pre = rng.choice('<>=@')
+            return {'t': 'struct', 'pre': pre, 'codes': ''.join((str(k) if (k := rng.choice([1, 1, 2, 3])) > 1 else '') + rng.choice(list(STRUCT)) for _ in range(rng.randrange(1, 3)))}
+        while True:
+            t = gen_token(rng, False)
+            if t['t'] == 'fixed': break
+        if r < 0.3: return {'t': 'rep', 'n': rng.choice([1, 2, 3]), 'body': t, 'bracket': rng.random() < 0.5}
+        if r < 0.36: return {'t': 'rep', 'n': 2, 'bracket': True, 'body': {'t': 'seq', 'items': [t, {'t': 'fixed', 'name': 'bool', 'n': 1, 'spell': 'bare'}]}}
+        return t
+    for _ in range(160 if q else 3000):
+        ctx = new_ctx()
+        pre = [({'t': 'var', 'name': rng.choice(list(GC))} if rng.random() < 0.3 else fixed_unit()) for _ in range(rng.choice([0, 1, 1, 2, 3]))]
+        post = [fixed_unit() for _ in range(rng.choice([1, 1, 1, 2, 3]) if rng.random() < 0.9 else 0)]
+        K = rng.choice(STRETCH_KINDS)
+        units, leaves = [], []
+        for f in pre + [None] + post:
+            if f is None:
+                v, b, bk = stretch_value(rng, K)
+                units.append([K, ['dtype', K, None]]); leaves.append([K, None, jv(v), b, bk]); continue
+            plain, _, fl = render(f, rng, ctx)
+            units.append([plain, part_alt(f)])
+            for L in fl:
+                v, b, bk = rand_value(rng, L['nm'], L['n'])
+                leaves.append([L['nm'], L['n'], jv(v), b, bk])
+        lkw = {k: ctx['kw'][k] for k in ctx['lk']}
+        si = len(pre)
+        lists = []
+        if q or len(units) > 6:
+            # the length-less token ends its item / shares it with what precedes / with part of what follows; then random groupings
+            if post:
+                lists.append([['str', ', '.join(u[0] for u in units[:si + 1])]] + partition(rng, units[si + 1:], 0.6, 0.6))
+                lists.append(partition(rng, units[:si], 0.6, 0.5) + [list(units[si][1]) if rng.random() < 0.5 else ['str', K]] + partition(rng, units[si + 1:], 0.5, 0.7))
+                if len(post) > 1: lists.append(partition(rng, units[:si], 0.5, 0.3) + [['str', ', '.join(u[0] for u in units[si:si + 2])]] + partition(rng, units[si + 2:], 0.5, 0.5))
+            lists.append(partition(rng, units, 0.5, 0.5))
+        else:
+            for g in all_groupings(len(units)):
+                lists.append(grouped(rng, units, g, 0.0))
+                if any(j == i + 1 and units[i][1] is not None for i, j in g): lists.append(grouped(rng, units, g, 0.7))
+        yield {'op': 'listread', 'units': units, 'leaves': leaves, 'lkw': lkw, 'lists': lists, 'K': K, 'cls': rng.choice(CLASSES), 'scls': rng.choice(['ConstBitStream', 'BitStream']),
+               'meth': rng.choice(['readlist', 'readlist', 'peeklist']), 'pre': ''.join(rng.choice('01') for _ in range(rng.choice([0, 0, 1, 3, 8, 13]))), 'tuple': rng.random() < 0.15}
+
+# ---------- values that do not fit ----------
+def int_range(nm, n):
+    return (-(1 << (n - 1)), (1 << (n - 1)) - 1) if nm.startswith('int') else (0, (1 << n) - 1)
+
+def fit_bits(nm, n, v):
+    """the bits of the value v in a token of kind nm (n bits), None when v is not a value of that token: integers by int.to_bytes (whole bytes) / two's complement digits,
+    the unsigned codes by the tables, bool by its two values"""
+    if nm in GC:
+        from props.c10 import ref_enc
+        return ref_enc(nm, v)
+    if nm == 'bool': return {0: '0', 1: '1'}.get(v) if v in (0, 1) else None
+    lo, hi = int_range(nm, n)
+    if not lo <= v <= hi: return None
+    if n % 8 == 0:
+        order = 'little' if nm.endswith('le') or (nm.endswith('ne') and sys.byteorder == 'little') else 'big'
+        return fbits(v.to_bytes(n // 8, order, signed=nm.startswith('int')))
+    return format(v & ((1 << n) - 1), f'0{n}b')
+
+def edge_values(rng, nm, n, few):
+    """values around the two ends of the range of an n-bit integer token: just inside, just outside, outside by less than a factor of two (where a wrapped value has
+    the right number of bits), exact multiples of 2**n away from a value that fits, further out by whole bytes, far away"""
+    lo, hi = int_range(nm, n); M = 1 << n
+    must = [hi + 1, lo - 1, M - 1, M, -M, hi, lo]
+    r_in = rng.randrange(lo, hi + 1)
+    more = [hi + 2, lo - 2, M + 1, -M + 1, -M - 1, hi + M, lo - M, lo + M, hi - M, r_in + M, r_in - M, r_in + 2 * M, 2 * M - 1, -2 * M, (1 << (n + 8)) - 1, 1 << (n + 8), -(1 << (n + 8)),
+            (1 << (n + 8)) + r_in, rng.randrange(hi + 1, hi + M + 1), rng.randrange(lo - M, lo), 256 ** (n // 8 + 1) - 1, -(M >> 1) - 1, (M >> 1),
+            (1 << (n + rng.randrange(1, 80))) + rng.randrange(-3, 4), -(1 << (n + rng.randrange(1, 80))) + rng.randrange(-3, 4), 10 ** 30, -10 ** 30,
+            0, -1, 1, lo + 1, hi - 1, r_in]
+    if few: more = rng.sample(more, 9)
+    out = []
+    for v in must + more:
+        if v not in out: out.append(v)
+    return out
+
+FILLERS = [('uint:8', 200, '200', '11001000'), ('bool', True, '1', '1'), ('hex:8', 'a5', 'a5', '10100101'), ('ue', 3, '3', '00100'), ('pad:3', None, None, '000'),
+           ('int:5', -3, '-3', '11101'), ('bits:3', '0b101', '0b101', '101'), ('intle:16', -2, '-2', '1111111011111111'), ('>H', 513, None, '0000001000000001'), ('se', -1, '-1', '011')]
+
+def range_token(rng, nm, n):
+    if n is None: return (nm if nm != 'bool' else rng.choice(['bool', 'bool:1'])), {}
+    a = ALIAS[nm] if nm in ALIAS and rng.random() < 0.2 else nm
+    r = rng.random()
+    if r < 0.4: return f'{a}:{n}', {}
+    if r < 0.65: return f'{a}{n}', {}
+    if r < 0.8: return f'{a} : {n}', {}
+    return f'{a}:w', {'w': n}
+
+def gen_range(rng, tier):
+    """Every integer token (the eight kinds with any spelling of the length, struct codes with each of the four prefixes and with counts, alone, repeated by a factor,
+    between other tokens) packed with a value at or beyond the ends of its range, the value handed over in every way there is.  A value that fits gives its bits;
+    one that does not fit - by one, by less than a factor of two, by whole multiples of 2**n, by far - is refused with CreationError and never wrapped."""
+    q = tier == 'quick'
+    def around():
+        return [rng.randrange(len(FILLERS)) for _ in range(rng.choice([0, 0, 1, 2]))]
+    def other(nm, n):
+        lo, hi = int_range(nm, n); return rng.choice([0, lo, hi, rng.randrange(lo, hi + 1)])
+    for nm in INTK:
+        bytewise = nm[-2:] in ('le', 'be', 'ne')
+        if bytewise: widths = [8, 16, 24, 32, 40, 48, 56, 64] + ([rng.choice([72, 80, 128])] if q else [72, 80, 96, 128, 136, 256])
+        else: widths = [8, 16, 32, 64] + (rng.sample([1, 2, 3, 4, 5, 7, 9, 12, 15, 17, 24, 31, 33, 63, 65, 127, 128, 129], 5) if q else list(range(1, 67)) + [127, 128, 129, 255, 256])
+        for n in widths:
+            for v in edge_values(rng, nm, n, q):
+                tok, lkw = range_token(rng, nm, n)
+                rep = rng.choice([0, 0, 0, 2, 3])
+                els = [[nm, n, other(nm, n)] for _ in range(rep or 1)]; at = rng.randrange(len(els)); els[at][2] = v
+                yield {'op': 'range', 'tok': tok, 'lkw': lkw, 'struct': False, 'els': els, 'at': at, 'rep': rep, 'repstyle': rng.choice(['factor', 'bracket']), 'txt': spell(rng, nm, v, True),
+                       'pre': around(), 'post': around()}
+    # struct codes: each prefix, one or several codes with counts, the value under test in any place
+    for code, (sk, sz) in STRUCT.items():
+        for pre in '<>=@':
+            end = {'<': 'le', '>': 'be', '=': 'ne', '@': 'ne'}[pre] if sz > 1 else ''
+            nm, n = sk + end, 8 * sz
+            for v in edge_values(rng, nm, n, True) if q else edge_values(rng, nm, n, False):
+                if q and rng.random() < 0.45 and v not in ((1 << n) - 1, -(1 << n), int_range(nm, n)[1] + 1, int_range(nm, n)[0] - 1): continue
+                group = [[code, rng.choice([1, 1, 1, 2, 3])]]
+                for _ in range(rng.choice([0, 0, 1, 2])): group.insert(rng.randrange(len(group) + 1), [rng.choice(list(STRUCT)), rng.choice([1, 1, 2])])
+                els, cand = [], []
+                for cd, cnt in group:
+                    k2, s2 = STRUCT[cd]; nm2 = k2 + ({'<': 'le', '>': 'be', '=': 'ne', '@': 'ne'}[pre] if s2 > 1 else '')
+                    for _ in range(cnt):
+                        if cd == code: cand.append(len(els))
+                        els.append([nm2, 8 * s2, other(nm2, 8 * s2)])
+                at = rng.choice(cand); els[at][2] = v
+                tok = pre + ''.join((str(cnt) if cnt > 1 or rng.random() < 0.1 else '') + cd for cd, cnt in group)
+                rep = rng.choice([0, 0, 0, 2])
+                if rep: els = [list(e) for e in els] + [[e[0], e[1], other(e[0], e[1])] for e in els]
+                yield {'op': 'range', 'tok': tok, 'lkw': {}, 'struct': True, 'els': els, 'at': at, 'rep': rep, 'repstyle': rng.choice(['factor', 'bracket']), 'txt': spell(rng, nm, v, False),
+                       'pre': around(), 'post': around()}
+    # the unsigned codes have no negative values, a bool has two values
+    for nm in ('ue', 'uie', 'bool'):
+        vals = [-1, -2, -3, -255, -256, -(1 << 64), 0, 1, 5] if nm != 'bool' else [2, 3, -1, 255, 256, 0, 1]
+        for v in vals + ([-rng.randrange(1, 1 << 70) for _ in range(3 if q else 40)] if nm != 'bool' else []):
+            tok, lkw = range_token(rng, nm, None)
+            rep = rng.choice([0, 0, 2])
+            els = [[nm, None, rng.choice([0, 1])] for _ in range(rep or 1)]; at = rng.randrange(len(els)); els[at][2] = v
+            yield {'op': 'range', 'tok': tok, 'lkw': lkw, 'struct': False, 'els': els, 'at': at, 'rep': rep, 'repstyle': rng.choice(['factor', 'bracket']),
+                   'txt': spell(rng, nm, v, True) if nm != 'bool' else str(v), 'pre': around(), 'post': around()}
 
 # ---------- formats that contain the same text more than once ----------
 def gen_repeat_fmt(rng, ctx, big):
@@ -458,7 +671,16 @@ def gen_cases(rng, tier):
     """every case of the base generator, and for every format text with a bracket (well-formed or malformed) the bracket expansion on its own:
     utils.expand_brackets(text without whitespace) is compared with the Coq model Tokenizer.expand_brackets and with an independent recursive-descent expansion"""
     seen, budget = set(), (400 if tier == 'quick' else 6000)
+    # an auxiliary generator seeded from rng (whose state is then put back: the cases of the earlier rounds stay exactly what they were for a given seed)
+    st = rng.getstate(); aux = random.Random(rng.getrandbits(64)); rng.setstate(st)
+    yield from gen_range(aux, tier)
+    yield from gen_listread(aux, tier)
     for c in _gen_cases_base(rng, tier):
+        if c['op'] == 'pack' and c.get('parts'):
+            # the same format as a LIST of items: its top-level items grouped at random, single plain tokens also as ints / Dtype objects
+            c['lfmt'] = partition(aux, c['parts'], aux.choice([0.3, 0.6, 1.0]), 0.4)
+            c['lcls'] = aux.choice(CLASSES); c['lmeth'] = aux.choice(['unpack', 'readlist', 'peeklist'])
+            c['lpre'] = ''.join(aux.choice('01') for _ in range(aux.choice([0, 0, 2, 8, 11]))); c['ltuple'] = aux.random() < 0.15
         yield c
         texts = [c['fmt']] if isinstance(c.get('fmt'), str) else [f for f in c.get('fmts', []) if isinstance(f, str)]
         for t in texts:
@@ -559,6 +781,52 @@ def run_impl(c):
             joined = pack(', '.join(c['fmts']), *pv).bin
             return [a, b, first, joined]
         return attempt(g, 20)
+    if c['op'] == 'range':
+        tok, lkw, els, at = c['tok'], c['lkw'], c['els'], c['at']
+        v, txt, rep = els[at][2], c['txt'], c['rep']
+        wrap = lambda t: t if not rep else (f"{rep}*{t}" if c['repstyle'] == 'factor' else f"{rep}*({t})")
+        pre = [FILLERS[i] for i in c['pre']]; post = [FILLERS[i] for i in c['post']]
+        fv = lambda fl: [x[1] for x in fl if x[1] is not None]
+        def fmt(T): return ', '.join([x[0] for x in pre] + [T] + [x[0] for x in post])
+        def vals(target): return fv(pre) + [target if i == at else e[2] for i, e in enumerate(els)] + fv(post)
+        R = {'pos': lambda: pack(fmt(wrap(tok)), *vals(v), **lkw).bin,
+             'postext': lambda: pack(fmt(wrap(tok)), *vals(txt), **lkw).bin,
+             'list': lambda: pack([x[0] for x in pre] + [wrap(tok)] + [x[0] for x in post], *vals(v), **lkw).bin,
+             'tuple_text': lambda: pack(tuple([x[0] for x in pre] + [wrap(tok)] + [x[0] for x in post]), *vals(txt), **lkw).bin}
+        if not c['struct']:
+            # the value in the format text / behind a keyword: with a factor every copy takes it
+            R['emb'] = lambda: pack(fmt(wrap(tok + ' = ' + txt)), *(fv(pre) + fv(post)), **lkw).bin
+            R['kwv'] = lambda: pack(fmt(wrap(tok + '=val')), *(fv(pre) + fv(post)), val=v, **lkw).bin
+            R['kwvtext'] = lambda: pack(fmt(wrap(tok + '=val')), *(fv(pre) + fv(post)), val=txt, **lkw).bin
+            if not lkw and all(x[2] is not None or x[1] is None for x in pre + post):
+                emb = lambda x: x[0] if x[1] is None else f'{x[0]}={x[2]}'
+                S = ', '.join([emb(x) for x in pre] + [wrap(tok + '=' + txt)] + [emb(x) for x in post])
+                for cn in CLASSES: R['string:' + cn] = lambda cn=cn: cls_of(cn)(S).bin
+                R['string:pack'] = lambda: pack(S).bin
+                R['string:add'] = lambda: (bitstring.BitArray('0b1') + S).bin[1:]
+                def app():
+                    b = bitstring.BitStream(); b.append(S); return b.bin
+                R['string:append'] = app
+        return ('ok', {k: list(attempt(f)) for k, f in R.items()})
+    if c['op'] == 'listread':
+        exp = ''.join(L[3] for L in c['leaves'])
+        lkw = c['lkw']
+        def one(items):
+            r = {}
+            def un():
+                o = cls_of(c['cls'])(bin=exp)
+                return [canon(x) for x in o.unpack(list_format(items, c['tuple']), **lkw)]
+            r['unpack'] = list(attempt(un, 10))
+            def rd():
+                o = cls_of(c['scls'])(bin=c['pre'] + exp); o.pos = len(c['pre'])
+                got = getattr(o, c['meth'])(list_format(items, c['tuple']), **lkw)
+                return [[canon(x) for x in got], o.pos]
+            r[c['meth']] = list(attempt(rd, 10))
+            if all(L[2] is not None or L[0] == 'pad' for L in c['leaves']) and c['K'] != 'pad' and all(it[0] == 'str' for it in items):
+                r['pack'] = list(attempt(lambda: pack(list_format(items, c['tuple']), *[pyval(L[2]) for L in c['leaves'] if L[0] != 'pad'], **lkw).bin, 10))
+            return r
+        joined = [['str', ', '.join(u[0] for u in c['units'])]]
+        return ('ok', [one(joined)] + [one(items) for items in c['lists']])
     args = [pyval(v) for v in c['args']]
     kw = {k: pyval(v) for k, v in c['kw'].items()}
     lkw = c['lkw']
@@ -583,7 +851,18 @@ def run_impl(c):
         got = getattr(o, m)(c['plain'], **lkw)
         return [m, [canon(x) for x in got], getattr(o, 'pos', None)]
     out['read'] = list(attempt(rd, 10))
-    # the format as a token string: every value written out in the format itself, flat ...
+    # reading them back with the format given as a list of items (strings of one or more tokens, ints, Dtype objects)
+    if 'lfmt' in c:
+        def lrd():
+            m = c['lmeth'] if c['lcls'] in ('ConstBitStream', 'BitStream') else 'unpack'
+            pre = c['lpre'] if m != 'unpack' else ''
+            o = cls_of(c['lcls'])(bin=pre + exp)
+            if m != 'unpack': o.pos = len(pre)
+            got = getattr(o, m)(list_format(c['lfmt'], c['ltuple']), **lkw)
+            return [m, [canon(x) for x in got], getattr(o, 'pos', None), len(pre)]
+        out['lread'] = list(attempt(lrd, 10))
+        if all(it[0] == 'str' for it in c['lfmt']) and c['fmt'] == c['plain']:
+            out['lpack'] = list(attempt(lambda: pack(list_format(c['lfmt'], c['ltuple']), *args, **kw).bin, 10))
     if all(t is not None or nm == 'pad' for (nm, n), t in zip(c['toks'], c['etext'])) and c['toks']:
         flat = ', '.join(f'pad:{n}' if nm == 'pad' else f"{nm}{'' if n is None else ':' + str(n)}={t}" for (nm, n), t in zip(c['toks'], c['etext']))
         out['embedded'] = {cn: list(attempt(lambda: cls_of(cn)(flat).bin)) for cn in CLASSES}
@@ -635,6 +914,35 @@ def oracle(c, obs):
             return (f"pack with the list format {c['fmts']} and values {c['vals']}: first call {a!r}, second call {b!r}, first item alone afterwards {first!r}, "
                     f"joined string {joined!r}; concatenation of token encodings is {exp!r} (first item: {exp0!r})")
         return None
+    if c['op'] == 'range':
+        if obs[0] != 'ok': return f"range case {c}: {obs}"
+        els, at, rep = c['els'], c['at'], c['rep']
+        nm, n, v = els[at]
+        pre = ''.join(FILLERS[i][3] for i in c['pre']); post = ''.join(FILLERS[i][3] for i in c['post'])
+        for how, r in obs[1].items():
+            every = how in ('emb', 'kwv', 'kwvtext') or how.startswith('string:')      # routes on which every copy under a factor takes the value
+            parts = [fit_bits(e[0], e[1], v if (every or i == at) else e[2]) for i, e in enumerate(els)]
+            exp = ['err', 'ValueError'] if any(p is None for p in parts) else ['ok', pre + ''.join(parts) + post]
+            if r != exp:
+                rng_txt = '' if n is None else f" (range {int_range(nm, n)[0]} .. {int_range(nm, n)[1]})"
+                return (f"token {c['tok']!r}{' x' + str(rep) + ' (' + c['repstyle'] + ')' if rep else ''} with keywords {c['lkw']}, between {[FILLERS[i][0] for i in c['pre']]} and {[FILLERS[i][0] for i in c['post']]}, "
+                        f"element {at} of kinds {[(e[0], e[1]) for e in els]} given the value {v} (text {c['txt']!r}) through route {how}: got {r}, expected "
+                        f"{'CreationError: the value is not one of a ' + str(n) + '-bit ' + nm + rng_txt if exp[0] == 'err' else exp}")
+        return None
+    if c['op'] == 'listread':
+        if obs[0] != 'ok': return f"listread case {c}: {obs}"
+        exp = ''.join(L[3] for L in c['leaves'])
+        back = [L[4] for L in c['leaves'] if L[0] != 'pad']
+        joined = [['str', ', '.join(u[0] for u in c['units'])]]
+        for items, r in zip([joined] + c['lists'], obs[1]):
+            what = (f"the bits {exp!r} (for {c['meth']}: behind the {len(c['pre'])} bits {c['pre']!r}, pos set past them) of the tokens {[(L[0], L[1]) for L in c['leaves']]} (values {back[:12]}), format given as the {'tuple' if c['tuple'] else 'list'} {show_list(items)} "
+                    f"with keywords {c['lkw']} (the same tokens as {joined[0][1]!r})")
+            for how, x in r.items():
+                if how == 'unpack': e = ['ok', back]
+                elif how == 'pack': e = ['ok', exp]
+                else: e = ['ok', [back, len(c['pre']) + (len(exp) if how == 'readlist' else 0)]]
+                if x != e: return f"{c['cls'] if how == 'unpack' else c['scls'] if how != 'pack' else ''} {how} of {what}: got {x}, expected {e}"
+        return None
     exp_bits = ''.join(c['bits'])
     call = f"pack({c['fmt']!r}, *{c['args'][:12]}{'...' if len(c['args']) > 12 else ''} ({len(c['args'])} values), **{c['kw']})"
     if obs[0] != 'ok': return f"{call} raised {obs}; the format flattens to {len(c['toks'])} tokens {c['toks'][:12]} with the values {c['vals'][:12]}"
@@ -652,6 +960,16 @@ def oracle(c, obs):
         if got != back: return f"{c['ucls']}(bin={exp_bits!r}).{m}({c['plain']!r}) gave {len(got)} values {got[:12]}, the bits encode the {len(back)} values {back[:12]}"
         want_pos = None if pos is None else (len(exp_bits) if m == 'readlist' else 0)
         if m != 'unpack' and pos != want_pos: return f"{c['ucls']}(bin=...).{m}({c['plain']!r}) left pos = {pos}, expected {want_pos}"
+    if 'lread' in o:
+        r = o['lread']
+        lshow = f"{c['lcls']}(bin={c['lpre']!r} + {exp_bits!r}).{c['lmeth']}({'tuple' if c['ltuple'] else 'list'} {show_list(c['lfmt'])}, **{c['lkw']})"
+        if r[0] != 'ok': return f"{lshow} raised {r}; the items together are the format {c['plain']!r}, whose tokens {c['toks'][:12]} with the values {back[:12]} give these bits"
+        m, got, pos, np = r[1]
+        if got != back: return f"{lshow} ({m}) gave {len(got)} values {got[:12]}; the items together are the format {c['plain']!r}, for which the bits encode the {len(back)} values {back[:12]}"
+        want_pos = None if pos is None else (np + len(exp_bits) if m == 'readlist' else np)
+        if pos != want_pos: return f"{lshow} ({m}) left pos = {pos}, expected {want_pos}"
+    if 'lpack' in o and o['lpack'] != ['ok', exp_bits]:
+        return f"pack({'tuple' if c['ltuple'] else 'list'} {show_list(c['lfmt'])}, *{c['args'][:12]}, **{c['kw']}) gave {o['lpack']}; the items together are the format {c['fmt']!r} which packs to {exp_bits!r}"
     if 'embedded' in o:
         for how, r in o['embedded'].items():
             if how != 'text' and r != ['ok', exp_bits]:
@@ -666,7 +984,7 @@ def oracle(c, obs):
     if len(o['pre']) != len(c['toks']): return f"preprocess_tokens({c['fmt']!r}) has {len(o['pre'])} tokens {o['pre'][:12]}, the grammar flattens it to {len(c['toks'])}"
     return None
 
-def nontrivial(c, obs): return c['op'] == 'pack' and any(ch in c['fmt'] for ch in '*(<>=')
+def nontrivial(c, obs): return (c['op'] == 'pack' and any(ch in c['fmt'] for ch in '*(<>=')) or c['op'] in ('range', 'listread')
 def classify(c, obs): return None
 
 def cval(nm, v):
